@@ -86,7 +86,8 @@ class RealWorld:
         os.makedirs(os.path.dirname(hook), exist_ok=True)
         lst = os.path.join(self.bare, 'rejected-refs')
         with open(lst, 'w') as f:
-            f.write(''.join('refs/heads/%s\n' % n for n in names))
+            f.write(''.join(('refs/tags/%s\n' % n[4:]) if n.startswith('tag:')
+                            else ('refs/heads/%s\n' % n) for n in names))
         with open(hook, 'w') as f:
             f.write('#!/bin/sh\nif grep -qxF "$1" "%s"; then echo "protected $1" >&2; exit 1; fi\nexit 0\n' % lst)
         os.chmod(hook, 0o755)
